@@ -8,6 +8,21 @@ import re
 
 from .. import templates as T
 
+CLAIM = {
+    "text": "For each of the 27 TerminalCommand variants the output template of its TTYEncoder::encode arm (every branch valuation; helpers "
+            "inlined, lets and pattern bindings substituted) equals the reference template written from ECMA-48 / xterm ctlseqs / kitty "
+            "keyboard protocol: literal bytes and final bytes, hole expressions (row+1, col+1, negated deltas), format specs (two hex digits "
+            "per byte for XTGETTCAP), DEC private marker, OSC/DCS framing with ST, alt-screen keyboard-level bracketing under "
+            "caps.kitty_keyboard, empty output for Image/ImageErase; variant field types are those the holes assume; every path is a "
+            "concatenation of complete control sequences with no non-I/O exit inside one; DecMode discriminants equal xterm's mode numbers. "
+            "Not decided: the SGR parameter table (C06; only CSI..m framing and ';' joining), colour reduction (C20), absence of panics on "
+            "extreme values (clause (b), hook `obligations` left for the abstract interpreter), control bytes inside Title/Char/Raw payloads, "
+            "what a real terminal does beyond the reference templates.",
+    "technique": "output-template extraction from the syntax tree (template language per path), comparison with hand-written reference "
+                 "templates over all branch valuations, ECMA-48 framing automaton on templates, enum discriminant table",
+    "design_ref": "DESIGN.md §5 C05 (a); §4 output templates, reference tables",
+}
+
 REFS = os.path.join(os.path.dirname(os.path.dirname(os.path.abspath(__file__))), "refs", "ecma48_cmds.json")
 
 ENUM = "TerminalCommand"
